@@ -36,6 +36,7 @@ class Profile:
         self.layouts = ('C',)
         self.specials = False
         self.casts = False
+        self.any_casts = False          # casts whose result is not defined for every value (C19 only: no content oracle)
         self.meta_kinds = ()            # object kinds (besides origin/channel/frame) that may appear
         self.max_meta = 6
         self.attr_routes = ('kw',)
@@ -431,7 +432,9 @@ def draw_frame(draw, g, fidx, rows=None):
             name = (name + str(k))[-p.name_max:] if not p.name_pool else name + str(k)
         used_names.add(name)
         op = {'t': 'channel', 'name': name, 'data': aj, 'attrs': {}}
-        if p.casts and draw(st.integers(0, 3)) == 0:
+        if p.any_casts and draw(st.integers(0, 5)) == 0:
+            op['cast'] = DTYPE_NAME[draw(st.sampled_from([c for c in DTYPES if c != aj['dt'][1:]]))]
+        elif p.casts and draw(st.integers(0, 3)) == 0:
             cast = well_defined_cast(draw, aj['dt'][1:], aj)
             if cast:
                 # a type (np.float32) or a dtype object with an explicit byte order (np.dtype('>f4'))
